@@ -26,6 +26,18 @@ def decoy(*args, **kw):
     return "decoy"
 
 
+class WrapObj:
+    """a class-based decorator: the instance is callable through a Python-level __call__ and points at what it wraps
+    through __wrapped__ (functools.update_wrapper)"""
+
+    def __init__(self, fn):
+        functools.update_wrapper(self, fn)
+        self._fn = fn
+
+    def __call__(self, *a, **k):
+        return self._fn(*a, **k)
+
+
 def build_tower(layers, top):
     base = make_base()
     # an ordinary attribute that merely LOOKS like functools.partial's: only real partial objects are unwrapped
@@ -45,6 +57,8 @@ def build_tower(layers, top):
             x = w
         elif l == "method":
             x = types.MethodType(x, object())
+        elif l == "wrapobj":
+            x = WrapObj(x)
         else:
             raise ValueError(l)
     if top == "classmethod":
